@@ -119,7 +119,15 @@ def complete_trip_phase(
                     num_passengers=updated_num_passengers,
                     departure_times=updated_departure_times,
                 )
-                updated_vehicle = vehicle.modify_vehicle_state(updated_vehicle_state)
+                # pick_up_trip credited the fare to the vehicle stored in sim2; update that
+                # vehicle, not the one we were handed, or the payment is overwritten
+                paid_vehicle = sim2.vehicles.get(vehicle.id)
+                if paid_vehicle is None:
+                    return (
+                        SimulationStateError(f"vehicle {vehicle.id} not found after pickup"),
+                        None,
+                    )
+                updated_vehicle = paid_vehicle.modify_vehicle_state(updated_vehicle_state)
                 result = modify_vehicle(sim2, updated_vehicle)
                 return result
 
